@@ -182,30 +182,34 @@ structure HevcRecord where
   chromaM8 : UInt8 := 0
   deriving Repr, DecidableEq
 
-/-- `applyPLT` -/
+/-- `applyPLT`, field by field: the profile space is overwritten; a higher tier takes the tier and
+    its level, otherwise a higher level is taken; a higher profile idc is taken; the compatibility
+    and constraint flags are and-ed -/
 def applyPLT (r : HevcRecord) (p : HevcPtl) : HevcRecord :=
-  let r := { r with space := p.space }
-  let r := if p.tier > r.tier then { r with level := p.level, tier := p.tier }
-           else if p.level > r.level then { r with level := p.level } else r
-  let r := if p.idc > r.idc then { r with idc := p.idc } else r
-  { r with compat := r.compat &&& p.compat, constraint := r.constraint &&& p.constraint }
+  { r with
+    space := p.space
+    tier := if p.tier > r.tier then p.tier else r.tier
+    level := if p.tier > r.tier then p.level else if p.level > r.level then p.level else r.level
+    idc := if p.idc > r.idc then p.idc else r.idc
+    compat := r.compat &&& p.compat
+    constraint := r.constraint &&& p.constraint }
+
+/-- `if x_max_sub_layers_minus1+1 > record.MaxSubLayers { record.MaxSubLayers = … }` (uint8 arithmetic) -/
+def raiseSubLayers (r : HevcRecord) (maxSubLayersMinus1 : UInt8) : HevcRecord :=
+  if maxSubLayersMinus1 + 1 > r.maxSubLayers then { r with maxSubLayers := maxSubLayersMinus1 + 1 } else r
 
 /-- `NewHEVCDecoderConfigurationRecord` + `init`: `none` = the decoder returned an error (init
     returns early and the error is ignored by the constructor) -/
 def hevcInit (vps : Option HevcVpsInfo) (sps : Option HevcSpsInfo) : HevcRecord :=
-  let r : HevcRecord := {}
   match vps with
-  | none => r
+  | none => {}
   | some v =>
-    let r := if v.maxSubLayersMinus1 + 1 > r.maxSubLayers then { r with maxSubLayers := v.maxSubLayersMinus1 + 1 } else r
-    let r := applyPLT r v.ptl
+    let r1 := applyPLT (raiseSubLayers {} v.maxSubLayersMinus1) v.ptl
     match sps with
-    | none => r
+    | none => r1
     | some s =>
-      let r := if s.maxSubLayersMinus1 + 1 > r.maxSubLayers then { r with maxSubLayers := s.maxSubLayersMinus1 + 1 } else r
-      let r := { r with nesting := s.nesting }
-      let r := applyPLT r s.ptl
-      { r with chroma := s.chroma, lumaM8 := s.lumaM8, chromaM8 := s.chromaM8 }
+      let r2 := applyPLT { raiseSubLayers r1 s.maxSubLayersMinus1 with nesting := s.nesting } s.ptl
+      { r2 with chroma := s.chroma, lumaM8 := s.lumaM8, chromaM8 := s.chromaM8 }
 
 /-- one parameter-set array of `HEVCDecoderConfigurationRecord.Marshal` -/
 def hevcArray (nalType : UInt8) (ps : Bytes) : Bytes :=
